@@ -1,0 +1,28 @@
+//go:build verif
+
+package hub
+
+import (
+	"github.com/enbility/ship-go/api"
+)
+
+// Scale the connection initiation delay ranges (values in seconds, as in the original table).
+func VerifSetDialDelayRanges(ranges [][2]int) {
+	newRanges := make([]connectionInitiationDelayTimeRange, 0, len(ranges))
+	for _, r := range ranges {
+		newRanges = append(newRanges, connectionInitiationDelayTimeRange{min: r[0], max: r[1]})
+	}
+	connectionInitiationDelayTimeRanges = newRanges
+}
+
+// Read-only copy of the connection registry.
+func (h *Hub) VerifRegistry() map[string]api.ShipConnectionInterface {
+	h.muxCon.Lock()
+	defer h.muxCon.Unlock()
+
+	result := make(map[string]api.ShipConnectionInterface, len(h.connections))
+	for ski, con := range h.connections {
+		result[ski] = con
+	}
+	return result
+}
